@@ -54,6 +54,10 @@ func init() {
 	// a valid document whose path item declares a body parameter with a $ref'd schema (shared by
 	// its operations) and operation-level parameters with $ref'd schemas
 	c10multi = append(c10multi,
+		// definitions whose required names are all matched by valid pattern properties standing next to
+		// an invalid one: whether the invalid expression is reported must not depend on which pattern the
+		// iteration meets first
+		`{"swagger":"2.0","info":{"title":"t","version":"1"},"paths":{"/a":{"get":{"operationId":"g","responses":{"200":{"description":"ok"}}}}},"definitions":{"P":{"type":"object","required":["ab","ba"],"patternProperties":{"^a":{"type":"string"},"^(unclosed":{"type":"string"},"b$":{"type":"string"},"^b":{"type":"string"}}},"Q":{"type":"object","required":["x1"],"patternProperties":{"^x":{"type":"integer"},"[":{"type":"integer"},"1$":{"type":"integer"}}}}}`,
 		`{"swagger":"2.0","info":{"title":"t","version":"1"},"paths":{"/a":{"parameters":[{"name":"body","in":"body","schema":{"$ref":"#/definitions/X"}}],"post":{"operationId":"p","responses":{"200":{"description":"ok","schema":{"$ref":"#/definitions/Y"}}}},"put":{"operationId":"u","responses":{"200":{"description":"ok"}}}}},"definitions":{"X":{"type":"object","properties":{"n":{"type":"integer"}}},"Y":{"type":"object","properties":{"x":{"$ref":"#/definitions/X"}}}}}`)
 }
 
